@@ -403,16 +403,14 @@ func (sc *StateContext) GetTrieNode(key datastore.Key, v util.MPTSerializable) e
 
 	cv, ok := sc.Cache().Get(key)
 	if ok {
-		ccv, ok := statecache.Copyable(v)
-		if !ok {
-			panic("state context cache - get trie node not copyable")
+		// The cached value can only be served when it can be copied into v. The same key may be
+		// requested with another (or a non cacheable) type, e.g. a provider id registered in a
+		// different smart contract: any client can send such a request, so it must not panic the
+		// node; fall through and read the trie, exactly as a node without this cache entry does.
+		if ccv, ok := statecache.Copyable(v); ok && ccv.CopyFrom(cv) {
+			verifObsGet(sc, key, v, true)
+			return nil
 		}
-
-		if !ccv.CopyFrom(cv) {
-			panic("state context cache - get trie node copy from failed")
-		}
-		verifObsGet(sc, key, v, true)
-		return nil
 	}
 
 	// get from MPT
